@@ -109,7 +109,9 @@ func c11Check(ctx *vfCtx, c c11Case) {
 	resolve := func(sets [][]PDU, auth []PDU) ([]PDU, bool) {
 		var got []PDU
 		var rerr error
-		if vfCatch(ctx, "C11/"+algo, func() { got, rerr = ResolveConflictsNew(RoomVersion(version), sets, auth, vfUserIDForSender, isRejected) }) {
+		if vfCatch(ctx, "C11/"+algo, func() {
+			got, rerr = ResolveConflictsNew(RoomVersion(version), sets, auth, vfUserIDForSender, isRejected)
+		}) {
 			return nil, false
 		}
 		if rerr != nil {
